@@ -8,7 +8,9 @@
 (*   ShootBegin{gun,gid,ammo,tok} ShootEnd{gun,gid}                        *)
 (*   Recv{toks}      the target: the token found in the payload and in the *)
 (*                   templated header / metadata entries of ONE call       *)
-(*   Sample{gid}     aggregator decorator                                  *)
+(*   Sample{gid,tag,base,code,err}  aggregator decorator: what a gun hands  *)
+(*                   over to the REAL phout aggregator, read at hand-over   *)
+(*   Phout{tag,code,err,bad}  every line phout wrote, read after the run    *)
 (*   PoolDone, RunEnd                                                      *)
 (*   PoolError, Fault{what}   -- NO ACTION: a run that failed, a race      *)
 (*                   report, a runtime fatal reject the trace              *)
@@ -16,16 +18,30 @@
 (* creator / instance goroutine); its invariants are evaluated after every *)
 (* line.  A call whose tokens disagree, or carry a value already sent for  *)
 (* another call, has no action.                                            *)
+(* Samples (Isolation: SReport / AggWrite at the level of content; sample  *)
+(* identities and the pool are not observable): within one Shoot the gun   *)
+(* hands over exactly one sample per step, in step order (a second Report  *)
+(* for a step has no action); `handed` is the bag of contents the          *)
+(* aggregator owns; every phout line must be one of them, each written     *)
+(* once (a sample changed after the hand-over, reported twice, or two      *)
+(* lines run together have no action); at RunEnd the bag is empty.         *)
 (***************************************************************************)
 EXTENDS Isolation, Json, IOUtils
 
-VARIABLE l
+VARIABLES l,
+          plan,     \* base tags of the samples of one shot ([] = the ammo's own tag)
+          exp,      \* gun -> expected base tags of the shot in progress
+          pos,      \* gun -> samples handed over in the shot in progress
+          handed    \* bag: content [tag, code, err] -> handed over and not yet written by the aggregator
+tx == <<plan, exp, pos, handed>>
 
 Trace == ndJsonDeserialize(IOEnv.VERIF_TRACE)
 Ev == Trace[l]
 Mark == TLCSet(1, IF TLCGet(1) > l + 1 THEN TLCGet(1) ELSE l + 1)
 
-TraceInit == l = 1 /\ TLCSet(1, 1) /\ Init
+EmptyBag == [x \in {} |-> 0]
+TraceInit == /\ l = 1 /\ TLCSet(1, 1) /\ Init
+             /\ plan = <<>> /\ exp = [g \in Guns |-> <<>>] /\ pos = [g \in Guns |-> 0] /\ handed = EmptyBag
 
 Quiet == \A g \in Guns : nShoot[g] = 0
 Stutter == UNCHANGED vars
@@ -34,11 +50,18 @@ TRun == /\ Ev.ev = "Run" /\ Quiet
         /\ pend' = {} /\ made' = {} /\ owners' = [g \in Guns |-> {}] /\ busy' = [i \in Insts |-> FALSE]
         /\ nShoot' = [g \in Guns |-> 0] /\ shooter' = [g \in Guns |-> {}] /\ cur' = [g \in Guns |-> "-"]
         /\ used' = {} /\ defs' = "T" /\ view' = [g \in Guns |-> "none"] /\ inCrit' = {} /\ sent' = {} /\ shots' = 0
-TNewGun == Ev.ev = "NewGun" /\ Ev.gun \in Guns /\ NewGun(Ev.gid, Ev.gun)
-TBind == Ev.ev = "Bind" /\ Ev.ok /\ Ev.gun \in Guns /\ Ev.inst \in Insts /\ Bind(Ev.gid, Ev.inst, Ev.gun)
+        /\ UNCHANGED svars
+        /\ \A x \in DOMAIN handed : handed[x] = 0
+        /\ plan' = Ev.steps /\ exp' = [g \in Guns |-> <<>>] /\ pos' = [g \in Guns |-> 0] /\ handed' = EmptyBag
+TNewGun == Ev.ev = "NewGun" /\ Ev.gun \in Guns /\ NewGun(Ev.gid, Ev.gun) /\ UNCHANGED tx
+TBind == Ev.ev = "Bind" /\ Ev.ok /\ Ev.gun \in Guns /\ Ev.inst \in Insts /\ Bind(Ev.gid, Ev.inst, Ev.gun) /\ UNCHANGED tx
 TShootBegin == /\ Ev.ev = "ShootBegin" /\ Ev.gun \in Guns
                /\ Ev.tok \notin used
                /\ \E i \in owners[Ev.gun] : ShootBegin(i, Ev.gun, Ev.gid, Ev.tok)
+               \* (the HTTP guns' ammo hides its tag from the decorator: "*" = one sample with any tag)
+               /\ exp' = [exp EXCEPT ![Ev.gun] = IF plan # <<>> THEN plan ELSE IF Ev.ammo = "" THEN <<"*">> ELSE <<Ev.ammo>>]
+               /\ pos' = [pos EXCEPT ![Ev.gun] = 0]
+               /\ UNCHANGED <<plan, handed>>
 Agree(ts) == Len(ts) > 0 /\ \A j \in 1..Len(ts) : ts[j] = ts[1] /\ ts[1] \notin {"", "-"}
 \* the call carries the token of the ammo in Shoot on some gun ...
 RecvCarried(t) == \E g \in Guns : cur[g] = t /\ Send(g, t, t, defs, view, FALSE)
@@ -46,15 +69,31 @@ RecvCarried(t) == \E g \in Guns : cur[g] = t /\ Send(g, t, t, defs, view, FALSE)
 RecvDrawn(t) == /\ \E g \in Guns : nShoot[g] > 0 /\ cur[g] = "" /\ g \notin inCrit
                 /\ t \notin used
                 /\ used' = used \cup {t}
-                /\ UNCHANGED <<pend, made, owners, busy, nShoot, shooter, cur, defs, view, inCrit, sent, shots>>
-TRecv == Ev.ev = "Recv" /\ Agree(Ev.toks) /\ (RecvCarried(Ev.toks[1]) \/ RecvDrawn(Ev.toks[1]))
-TSample == Ev.ev = "Sample" /\ (\E g \in Guns : nShoot[g] > 0 /\ Ev.gid \in shooter[g]) /\ Stutter
+                /\ UNCHANGED <<pend, made, owners, busy, nShoot, shooter, cur, defs, view, inCrit, sent, shots, svars>>
+TRecv == Ev.ev = "Recv" /\ Agree(Ev.toks) /\ (RecvCarried(Ev.toks[1]) \/ RecvDrawn(Ev.toks[1])) /\ UNCHANGED tx
+Content(e) == [tag |-> e.tag, code |-> e.code, err |-> e.err]
+BagAdd(b, x) == IF x \in DOMAIN b THEN [b EXCEPT ![x] = @ + 1] ELSE b @@ (x :> 1)
+\* the gun in Shoot on this goroutine hands over THE sample of its next step (SReport)
+TSample == /\ Ev.ev = "Sample"
+           /\ \E g \in Guns : /\ nShoot[g] > 0 /\ Ev.gid \in shooter[g]
+                                /\ pos[g] < Len(exp[g]) /\ exp[g][pos[g] + 1] \in {Ev.base, "*"}
+                                /\ pos' = [pos EXCEPT ![g] = @ + 1]
+           /\ handed' = BagAdd(handed, Content(Ev))
+           /\ UNCHANGED <<vars, plan, exp>>
+\* the aggregator wrote one of the samples it was handed, as it was handed (AggWrite)
+TPhout == /\ Ev.ev = "Phout" /\ ~Ev.bad /\ Quiet
+          /\ Content(Ev) \in DOMAIN handed /\ handed[Content(Ev)] > 0
+          /\ handed' = [handed EXCEPT ![Content(Ev)] = @ - 1]
+          /\ UNCHANGED <<vars, plan, exp, pos>>
 TShootEnd == /\ Ev.ev = "ShootEnd" /\ Ev.gun \in Guns /\ Ev.gid \in shooter[Ev.gun]
+             /\ pos[Ev.gun] >= 1                       \* a shot hands over at least the sample of its first step
              /\ \E i \in owners[Ev.gun] : ShootEnd(i, Ev.gun)
-TEnd == Ev.ev \in {"PoolDone", "RunEnd"} /\ Quiet /\ Stutter
+             /\ UNCHANGED tx
+TEnd == /\ Ev.ev \in {"PoolDone", "RunEnd"} /\ Quiet /\ Stutter /\ UNCHANGED tx
+        /\ Ev.ev = "RunEnd" => \A x \in DOMAIN handed : handed[x] = 0
 
 TraceNext == /\ l <= Len(Trace)
-             /\ (TRun \/ TNewGun \/ TBind \/ TShootBegin \/ TRecv \/ TSample \/ TShootEnd \/ TEnd)
+             /\ (TRun \/ TNewGun \/ TBind \/ TShootBegin \/ TRecv \/ TSample \/ TPhout \/ TShootEnd \/ TEnd)
              /\ l' = l + 1
              /\ Mark
 
